@@ -5,7 +5,7 @@ CONSTANTS Targets = {1, 2}
           Builders = {"v0", "v1"}
           MaxLinks = 3
           NNames = 2
-          Lean = TRUE
+          Lean = 1
           D = 3
           E = 3
 INVARIANTS Emit
